@@ -205,6 +205,21 @@ pub fn run(run: &Run) {
         }
         roots.push((format!("{:?}/fm={}", net, fm), r));
     }
+    // scalar header fields away from their defaults (fee pool, fee multiplier, DOSC speed), so that a field that is not restored shows
+    {
+        let (w, r) = root(NetID::Custom02, 0, true);
+        if let Real::Sealed(s) = &r.real {
+            let f = fabricate_with(s, &w.db, NetID::Custom02, 7, 123_456_789, 70_000, 7_777_777);
+            let h0 = f.header();
+            let mut m = r.model.clone();
+            m.height = 7;
+            m.fee_pool = 123_456_789;
+            m.fee_multiplier = 70_000;
+            m.dosc_speed = 7_777_777;
+            m.block_txs.clear();
+            roots.push(("Custom02/non-default-scalars".into(), Node { real: Real::Sealed(f), model: m, path: std::sync::Arc::new(vec!["genesis[Custom02] relabelled at height 7 with fee_pool=123456789 fee_multiplier=70000 dosc_speed=7777777".into()]), trace: std::sync::Arc::new(vec![json!({"root": "Custom02 relabelled with non-default scalars"})]), lineage: std::sync::Arc::new(vec![h0]), salt: 0 }));
+        }
+    }
     // epoch boundary with stakes expiring: Custom02 genesis with stakes, jumped to the last block of epoch 0 and of epoch 1
     for h in [199_998u64, 399_998] {
         let w = world(NetID::Custom02, out_t(1_000_000_000, melstructs::Denom::Mel), 1 << 30, 0, stakes_for_epochs());
